@@ -1,24 +1,41 @@
 #!/usr/bin/env python3
-"""Applies every seeded change (or the named ones) to /repo, runs the quick check of its property
-(plus meta.also_check), records the outcome in meta.json, and reverts /repo. usage: runseeds.py [--tier T] [name...]"""
-import json, os, subprocess, sys, glob
+"""Runs the checks against the seeded changes, each in its own scratch worktree of /repo's HEAD
+(VERIF_REPO=<worktree>; /repo itself is never touched), records the outcome in meta.json.
+usage: runseeds.py [--tier T] [--jobs N] [--only-missing] [name...]"""
+import json, os, subprocess, sys, glob, concurrent.futures, shutil
 V = "/verif"
 args = sys.argv[1:]
-tier = "quick"
-if args[:1] == ["--tier"]:
-    tier = args[1]; args = args[2:]
+tier, jobs, only_missing = "quick", 3, False
+while args and args[0].startswith("--"):
+    if args[0] == "--tier":
+        tier = args[1]; args = args[2:]
+    elif args[0] == "--jobs":
+        jobs = int(args[1]); args = args[2:]
+    elif args[0] == "--only-missing":
+        only_missing = True; args = args[1:]
+    else:
+        sys.exit("unknown option " + args[0])
 names = args or sorted(os.path.basename(os.path.dirname(p)) for p in glob.glob(V + "/seeded/*/meta.json"))
-if subprocess.check_output(["git", "-C", "/repo", "status", "--porcelain"]).strip():
-    sys.exit("/repo not clean")
-for n in names:
+head = subprocess.check_output(["git", "-C", "/repo", "rev-parse", "--short", "HEAD"]).decode().strip()
+
+def run(n):
     d = os.path.join(V, "seeded", n)
     meta = json.load(open(d + "/meta.json"))
     ids = [meta["property"]] + meta.get("also_check", [])
-    if subprocess.call(["git", "-C", "/repo", "apply", d + "/patch.diff"]) != 0:
-        print(n, "PATCH DOES NOT APPLY"); continue
+    if only_missing and all((cid + "/" + tier) in meta.get("detected_by", {}) for cid in ids):
+        return []
+    wt = "/tmp/rs-" + n
+    subprocess.call(["git", "-C", "/repo", "worktree", "remove", "--force", wt], stderr=subprocess.DEVNULL)
+    shutil.rmtree(wt, ignore_errors=True)
+    if subprocess.call(["git", "-C", "/repo", "worktree", "add", "-q", "--detach", wt, "HEAD"]) != 0:
+        return ["%s WORKTREE FAILED" % n]
+    out = []
     try:
+        if subprocess.call(["git", "-C", wt, "apply", d + "/patch.diff"]) != 0:
+            return ["%s PATCH DOES NOT APPLY to %s" % (n, head)]
+        env = dict(os.environ, VERIF_REPO=wt, VERIF_RUN_TAG=n)
         for cid in ids:
-            p = subprocess.run(["./check", cid, "--tier", tier], cwd=V, capture_output=True, text=True, errors="replace", timeout=3600)
+            p = subprocess.run(["./check", cid, "--tier", tier], cwd=V, capture_output=True, text=True, errors="replace", timeout=7200, env=env)
             viol = [l for l in p.stdout.split("\n") if l.startswith("VIOLATION ")]
             sigs = []
             for l in viol[:3]:
@@ -27,10 +44,18 @@ for n in names:
                 except Exception:
                     pass
             det = p.returncode == 1 and len(viol) > 0
-            meta.setdefault("detected_by", {})[cid + "/" + tier] = {"detected": det, "exit": p.returncode, "violation_lines": len(viol), "first_signatures": sigs}
-            print("%-40s %s %-8s %s exit=%d violations=%d %s" % (n, cid, tier, "DETECTED" if det else "MISSED", p.returncode, len(viol), sigs[:1]))
+            meta.setdefault("detected_by", {})[cid + "/" + tier] = {"detected": det, "exit": p.returncode, "violation_lines": len(viol), "first_signatures": sigs, "repo_head": head}
+            out.append("%-46s %s %-8s %s exit=%d violations=%d %s" % (n, cid, tier, "DETECTED" if det else "MISSED", p.returncode, len(viol), [s[:110] for s in sigs[:1]]))
+            if p.returncode not in (0, 1):
+                out.append("   " + (p.stdout + p.stderr)[-600:].replace("\n", " | "))
     finally:
-        subprocess.call(["git", "-C", "/repo", "checkout", "--", "."])
-        subprocess.call(["git", "-C", "/repo", "clean", "-fdq"])
+        subprocess.call(["git", "-C", "/repo", "worktree", "remove", "--force", wt], stderr=subprocess.DEVNULL)
+        shutil.rmtree(wt, ignore_errors=True)
+        shutil.rmtree(os.path.join(V, ".alt", n), ignore_errors=True)
     json.dump(meta, open(d + "/meta.json", "w"), indent=1)
-subprocess.call(["rm", "-rf", V + "/replay"])
+    return out
+
+with concurrent.futures.ThreadPoolExecutor(max_workers=jobs) as ex:
+    for res in ex.map(run, names):
+        for line in res:
+            print(line, flush=True)
